@@ -47,10 +47,10 @@ def queries(ctx):
                     unwind=8, unwindset=["expand_array.0:11", "memset.0:%d" % max(41, 8 * (nb0 + nb1 + more) + 1)], checks=["bounds", "pointer"],
                     object_bits=10, kf=(KF_MEM if in_class else None), units=UNITS, timeout=900, tiers=tiers,
                     info=dict(ioa_info, bounds={"infos": nb0 + nb1 + more, "growths": 1 + more})))
-    SN = {1: "get_get", 2: "get_set", 3: "get_tas", 4: "get_resize", 5: "set_tas_resize", 6: "probe"}
-    for sc in (1, 2, 3, 4, 5, 6):
-        for R in ((2, 3) if ctx.thorough else (2,)):
-            tiers = ("quick", "thorough") if (R == 2 and sc in (1, 3, 6)) else ("thorough",)
+    SN = {1: "get_get", 2: "get_set", 3: "get_tas", 4: "get_resize", 5: "set_tas_resize", 6: "probe", 7: "probeA", 8: "probeB", 9: "probeC", 10: "probeD"}
+    for sc in (1, 2, 3, 4, 5, 6, 7, 8, 9, 10):
+        for R in ((1, 2) if ctx.thorough else (1,)):
+            tiers = ("quick", "thorough") if (R == 1 and sc in (1, 3, 6, 7, 8, 9, 10)) else ("thorough",)
             if ctx.tier not in tiers:
                 continue
             # fields no thread writes in the scenario (a store would be reported as INTERNAL failure): entry descriptors, list links, registry max_id,
